@@ -31,7 +31,7 @@
 From Coq Require Import List NArith Arith Bool.
 Import ListNotations.
 From RH Require Lex.LangLexer Lex.SynLexer.
-From RH Require Import Lex.LexGrammar Lex.Agree Lex.AgreeSweep Lex.AgreeSyn Lex.AgreeLang Lex.AgreeProofs.
+From RH Require Import Lex.LexGrammar Lex.Agree Lex.AgreeSweep Lex.AgreeSyn Lex.AgreeSynEol Lex.AgreeLang Lex.AgreeProofs.
 Open Scope N_scope.
 
 (* ---------- finite domain: every string of length <= 3 over ALPHA (14 425 inputs), by vm_compute ---------- *)
@@ -73,6 +73,20 @@ Example C18_syn_is_spec_example : clean_syn ex_syn = true /\ no_directive ex_syn
   /\ length (match lexemes_syn ex_syn with Some l => l | None => [] end) = 14%nat.
 Proof. exact ex_syn_ok. Qed.
 Print Assumptions C18_syn_is_spec_example.
+
+(* the same for inputs that may hold CR (as separator, inside comments, strings, character literals): a line
+   break inside a lexeme reads as LF *)
+Theorem C18_syn_is_spec_eol : forall s,
+  clean_syn s = true -> no_directive s = true ->
+  has_nonint_bitstring s = false -> has_psl_word s = false ->
+  option_map (map norm_eol) (split_spec LangLexer.keywords_2008 s) = lexemes_syn s.
+Proof. exact syn_is_spec_eol. Qed.
+Print Assumptions C18_syn_is_spec_eol.
+Example C18_syn_is_spec_eol_example : clean_syn ex_syn_eol = true /\ no_directive ex_syn_eol = true
+  /\ has_nonint_bitstring ex_syn_eol = false /\ has_psl_word ex_syn_eol = false
+  /\ lexemes_syn ex_syn_eol = Some [[120]; [58; 61]; [34; 97; 10; 98; 34]; [40]; [39; 10; 39]; [41]].
+Proof. exact ex_syn_eol_ok. Qed.
+Print Assumptions C18_syn_is_spec_eol_example.
 
 (* vhdl_lang half, ALL inputs: on a Latin-1 input without CR, grave accent, `vhdl_ls` and `digit ':' alnum`
    (difference B) on which the model of vhdl_lang's tokenizer pushes no diagnostic, the texts between the
